@@ -80,11 +80,14 @@ class time_limit:
 
     def __enter__(self):
         self.old = signal.signal(signal.SIGALRM, _alarm)
-        signal.setitimer(signal.ITIMER_REAL, self.seconds)
+        self.outer_remaining = signal.setitimer(signal.ITIMER_REAL, self.seconds)[0]
+        self.t0 = time.monotonic()
 
     def __exit__(self, *a):
         signal.setitimer(signal.ITIMER_REAL, 0)
         signal.signal(signal.SIGALRM, self.old)
+        if self.outer_remaining > 0:  # nested use: re-arm the enclosing watchdog with what is left of it
+            signal.setitimer(signal.ITIMER_REAL, max(0.01, self.outer_remaining - (time.monotonic() - self.t0)))
         return False
 
 
